@@ -571,7 +571,12 @@ def c23_lift(R):
     # the decorator really dispatches by name
     dec = tree.func(DSIS, "apply_on_each_si.operator")
     R.check(
-        ast.unparse(dec).count("getattr(a, f.__name__)") + ast.unparse(dec).count("getattr(si, f.__name__)") >= 3,
+        sum(
+            1
+            for c in ast.walk(dec)
+            if isinstance(c, ast.Call) and dotted(c.func) == "getattr" and len(c.args) == 2 and ast.unparse(c.args[1]) == "f.__name__" and isinstance(c.args[0], ast.Name)
+        )
+        >= 3,
         m,
         dec,
         "apply_on_each_si dispatches on the decorated method's name",
@@ -620,9 +625,9 @@ def c23_vsorder(R):
     rets = [ast.unparse(r.value) for r in walk_no_nested(ne) if isinstance(r, ast.Return)]
     R.check(rets == ["~(self == other)"], m, ne, "ValueSet.__ne__ is the complement of ==", f"ValueSet.__ne__ returns {rets}")
     eq = ms["__eq__"]
-    t = ast.unparse(eq)
+    Fe = util.Frags(eq)
     R.check(
-        "if same and (not different):\n    return TrueResult()" in t.replace("        ", "    ").replace("            ", "    ") or "same and (not different)" in t,
+        Fe.has("same = False") and Fe.has("different = False") and Fe.has("if same and not different:\n    return TrueResult()"),
         m,
         eq,
         "ValueSet.__eq__: True only if some region pair can be equal and none can differ",
@@ -722,17 +727,17 @@ def c24_dispatch(R):
             )
     # argument decoding of the bit-manipulation handlers
     ex = d.handler("Extract").fn
-    t = ast.unparse(ex)
-    R.check("low_bit = args[1]" in t and "high_bit = args[0]" in t and "expr.extract(high_bit, low_bit)" in t, m, ex,
+    exi = util.inline_aliases(ex, lambda v: True)  # locals resolved: the call reads in terms of args[i]
+    R.check(any(ast.unparse(r.value) == "args[2].extract(args[0], args[1])" for r in walk_no_nested(exi) if isinstance(r, ast.Return)), m, ex,
             "Extract(high, low, x) -> x.extract(high, low)", "BackendVSA.Extract decodes its arguments differently", construct="BackendVSA.Extract args")
     for op, meth in (("SignExt", "sign_extend"), ("ZeroExt", "zero_extend")):
         fn = d.handler(op).fn
-        t = ast.unparse(fn)
-        R.check(f"expr.{meth}(new_bits + expr.bits)" in t and "new_bits = args[0]" in t and "expr = args[1]" in t, m, fn,
+        fni = util.inline_aliases(fn, lambda v: True)
+        R.check(any(ast.unparse(r.value) in (f"args[1].{meth}(args[0] + args[1].bits)", f"args[1].{meth}(args[1].bits + args[0])") for r in walk_no_nested(fni) if isinstance(r, ast.Return)), m, fn,
                 f"{op}(n, x) -> x.{meth}(n + x.bits)", f"BackendVSA.{op} changed its argument decoding", construct=f"BackendVSA.{op} args")
     cc = d.handler("Concat").fn
-    t = ast.unparse(cc)
-    R.check("ret.concat(expr) if ret is not None else expr" in t, m, cc, "Concat folds left to right (first argument is most significant)",
+    FCc = util.Frags(cc)
+    R.check(FCc.has("ret = None") and FCc.has("for expr in args:\n    ...") is not None and FCc.has("ret = ret.concat(expr) if ret is not None else expr") and FCc.has("return ret"), m, cc, "Concat folds left to right (first argument is most significant)",
             "BackendVSA.Concat no longer folds ret.concat(expr) left to right", construct="BackendVSA.Concat fold")
     for op in VSA_UNSUPPORTED:
         h = d.handler(op)
@@ -758,7 +763,7 @@ def c24_dispatch(R):
             construct="BackendVSA.And")
     orr = d.handler("Or").fn
     t = ast.unparse(orr)
-    R.check("first.union(o)" in t or "operator.__or__" in t, m, orr, "BackendVSA.Or joins / Kleene-ors its operands", "BackendVSA.Or changed",
+    R.check(util.Frags(orr).all("first = args[0]", "first = first.union(o)", "return first") or "operator.__or__" in t, m, orr, "BackendVSA.Or joins / Kleene-ors its operands", "BackendVSA.Or changed",
             construct="BackendVSA.Or")
 
 
@@ -853,7 +858,7 @@ def c24_anno(R):
             "BackendVSA.BVV changed", construct="BackendVSA.BVV")
     # annotations are applied to every converted node
     cv = tree.func("claripy/backends/backend.py", "Backend.convert")
-    R.check("for a in ast.annotations:" in ast.unparse(cv) and "r = self.apply_annotation(r, a)" in ast.unparse(cv),
+    R.check(util.Frags(cv).has("for a in ast.annotations:\n    r = self.apply_annotation(r, a)"),
             tree.mod("claripy/backends/backend.py"), cv, "Backend.convert applies every annotation of a node",
             "Backend.convert no longer applies the node's annotations", construct="Backend.convert annotations")
 
@@ -874,9 +879,9 @@ def c24_query(R):
     ms = util.methods_of(cls)
     for name, fold, comp in (("min", "min", "lb for lb, _ in split"), ("max", "max", "ub for _, ub in split")):
         fn = ms[name]
-        t = ast.unparse(fn)
+        Fq = util.Frags(fn)
         R.check(
-            "split = self._signed_bounds() if signed else self._unsigned_bounds()" in t,
+            Fq.has("split = self._signed_bounds() if signed else self._unsigned_bounds()"),
             m,
             fn,
             f"StridedInterval.{name}: pieces chosen by `signed`",
@@ -884,7 +889,7 @@ def c24_query(R):
             construct=f"StridedInterval.{name} split",
         )
         R.check(
-            f"return {fold}(({comp}))" in t or f"return {fold}({comp})" in t,
+            Fq.has(f"return {fold}({comp})"),
             m,
             fn,
             f"StridedInterval.{name} = {fold} over the pieces' {'lower' if name == 'min' else 'upper'} bounds",
@@ -1403,25 +1408,25 @@ _BALANCE_ARMS = {
     "_balance_reverse": ({"__eq__", "__ne__"}, None, "byte reversal is a bijection: it preserves (in)equality and no order"),
     "_balance_add": (
         {"__eq__", "__ne__"},
-        (("lhs", "truism.args[0]"),),
+        (("truism.args[0]",),),
         "x + k OP c  =>  x OP c - k holds for every x only for == and !=; for an order comparison it fails where x + k wraps",
     ),
     "_balance_sub": (
         {"__eq__", "__ne__"},
-        (("lhs", "truism.args[0]", "new_lhs"),),
+        (("truism.args[0]",),),
         "x - k OP c  =>  x OP c + k holds for every x only for == and !=; for an order comparison it fails where x - k wraps",
     ),
-    "_balance_zeroext": (set(), (("truism.args[1]", "other_side"),), "zext(x) OP c => x OP low(c) needs the high bits of c to be 0"),
-    "_balance_signext": (set(), (("truism.args[1]", "other_side"), ("truism.args[0]", "left_side")), "sext(x) OP c => x OP low(c) needs c to be a sign extension too"),
+    "_balance_zeroext": (set(), (("truism.args[1]",),), "zext(x) OP c => x OP low(c) needs the high bits of c to be 0"),
+    "_balance_signext": (set(), (("truism.args[1]",), ("truism.args[0]",)), "sext(x) OP c => x OP low(c) needs c to be a sign extension too"),
     "_balance_extract": (
         {"UGE", "UGT", "__ne__"},
-        (("inner", "left_msb", "left_lsb", "truism.args[0].args"),),
+        (("truism.args[0].args",),),
         "x[h:0] OP c => x OP zext(c) holds for every x only for >=, > and != (x >= x[h:0]); otherwise the dropped high bits must be 0",
     ),
-    "_balance_concat": (set(), (("left_msb", "truism.args[0].args"), ("right_msb", "truism.args[1]")), "(a .. b) OP c => b OP low(c) needs a == 0 and the high bits of c == 0"),
+    "_balance_concat": (set(), (("truism.args[0].args",), ("truism.args[1]",)), "(a .. b) OP c => b OP low(c) needs a == 0 and the high bits of c == 0"),
     "_balance_lshift": (
         set(),
-        (("expr", "lhs.args[0]", "truism.args[0].args[0]"),),
+        (("truism.args[0].args[0]",),),
         "(x << k) OP c => x OP (c >> k) needs the k high bits of x to be 0 (they are shifted out), besides the low bits of c",
     ),
 }
@@ -1497,18 +1502,12 @@ def c25_valid(R):
             R.bad(m, fn, f"new balance arm {name}: its rewrite has to be justified (operators it is valid for / range condition) and added to the table", construct=f"unclassified arm {name}")
             continue
         valid_ops, subjects, why = _BALANCE_ARMS[name]
-        vsa_locals = _vsa_fact_subjects(fn)
-        assigns = {}
-        for st in walk_no_nested(fn):
-            if isinstance(st, ast.Assign) and len(st.targets) == 1 and isinstance(st.targets[0], ast.Name):
-                assigns.setdefault(st.targets[0].id, []).append(st.value)
-            elif isinstance(st, ast.Assign) and len(st.targets) == 1 and isinstance(st.targets[0], (ast.Tuple, ast.List)):
-                for e in st.targets[0].elts:
-                    if isinstance(e, ast.Name):
-                        assigns.setdefault(e.id, []).append(st.value)  # `a, b = X.args`: each name comes out of X.args
+        # every single-assignment local is replaced by what it was computed from: guards and rebuilt comparisons then
+        # read in terms of `truism` access paths and VSA queries, whatever the intermediates are called
+        rfn = util.resolve_locals(fn)
         rebuilt = [
             r
-            for r in walk_no_nested(fn)
+            for r in walk_no_nested(rfn)
             if isinstance(r, ast.Return)
             and isinstance(r.value, ast.Call)
             and (dotted(r.value.func) or "") == "Bool"
@@ -1518,11 +1517,10 @@ def c25_valid(R):
         for r in rebuilt:
             n += 1
             allowed = set(_CMP_OPS)
-            range_fact = None
             covered = {}
-            held = [ast.unparse(t) for t, pol in guards.guards_of(r) if pol]
-            for t, pol in guards.guards_of(r):
-                txt = ast.unparse(t)
+            facts = guards.guards_of(r)
+            held = [ast.unparse(t) for t, pol in facts if pol]
+            for t, pol in facts:
                 # operator restrictions
                 if isinstance(t, ast.Compare) and len(t.ops) == 1 and ast.unparse(t.left) == "truism.op":
                     c = t.comparators[0]
@@ -1531,43 +1529,51 @@ def c25_valid(R):
                         vals = {c.value}
                     elif isinstance(c, (ast.Tuple, ast.List, ast.Set)):
                         vals = {e.value for e in c.elts if isinstance(e, ast.Constant)}
-                    if vals is not None:
+                    if vals is not None and isinstance(t.ops[0], (ast.In, ast.NotIn, ast.Eq, ast.NotEq)):
                         positive = isinstance(t.ops[0], (ast.In, ast.Eq)) == pol
-                        if isinstance(t.ops[0], (ast.In, ast.NotIn, ast.Eq, ast.NotEq)):
-                            allowed = allowed & vals if positive else allowed - vals
-                # range facts: a VSA query, directly or through a local, that holds (polarity True) on this path
-                if not pol:
+                        allowed = allowed & vals if positive else allowed - vals
+                # range facts: a VSA query that holds on this path and talks about the operand whose bits are discarded
+                if not pol or subjects is None:
                     continue
-                queries = [ast.unparse(c) for c in ast.walk(t) if isinstance(c, ast.Call) and (dotted(c.func) or "").startswith("claripy.backends.vsa.")]
-                queries += [vsa_locals[x.id] for x in ast.walk(t) if isinstance(x, ast.Name) and x.id in vsa_locals]
+                queries = [c for c in ast.walk(t) if isinstance(c, ast.Call) and (dotted(c.func) or "").startswith("claripy.backends.vsa.")]
+                # a flag that is assigned on several branches (query result / None) is not inlined: follow it
+                for x in ast.walk(t):
+                    if isinstance(x, ast.Name):
+                        for st in walk_no_nested(rfn):
+                            if isinstance(st, ast.Assign) and any(isinstance(tg, ast.Name) and tg.id == x.id for tg in st.targets):
+                                queries += [c for c in ast.walk(st.value) if isinstance(c, ast.Call) and (dotted(c.func) or "").startswith("claripy.backends.vsa.")]
                 for q in queries:
-                    if subjects is None:
-                        continue
-                    qnode = ast.parse(q, mode="eval").body
-                    closure = _value_names(qnode)
-                    texts = [q]
+                    # widths (len(..), .size()) are not uses of the value; names that could not be inlined (assigned
+                    # on several branches) are followed to what they were assigned from
+                    texts, seen_names, work = [_value_text(q)], set(), [q]
                     for _ in range(3):
-                        for nm in list(closure):
-                            for v in assigns.get(nm, ()):
-                                closure |= _value_names(v)
-                                texts.append(_value_text(v))
+                        nxt = []
+                        for node_ in work:
+                            for nm in _value_names(node_) - seen_names:
+                                seen_names.add(nm)
+                                for st in walk_no_nested(rfn):
+                                    if isinstance(st, ast.Assign) and any(isinstance(tg, ast.Name) and tg.id == nm for tg in st.targets):
+                                        texts.append(_value_text(st.value))
+                                        nxt.append(st.value)
+                        work = nxt
+                    text = " ; ".join(texts)
                     for gi, group in enumerate(subjects):
                         for subj in group:
-                            pat = re.compile(r"(?<![\w.])" + re.escape(subj) + r"(?![\w])")
-                            if subj in closure or any(pat.search(tx) for tx in texts):
-                                covered[gi] = q
+                            if re.search(r"(?<![\w.])" + re.escape(subj) + r"(?![\w])", text):
+                                covered[gi] = ast.unparse(q)[:80]
             range_fact = "; ".join(covered[g] for g in sorted(covered)) if subjects is not None and len(covered) == len(subjects) else None
             ok = allowed <= valid_ops or range_fact is not None
+            # the key of a finding must not depend on the locals' names: it is taken from the resolved function
             R.check(
                 ok,
                 m,
                 r,
                 f"{name}: rebuilt comparison is implied by the original ({'operators ' + str(sorted(allowed)) if allowed <= valid_ops else 'range fact ' + str(range_fact)})",
-                f"Balancer.{name} returns `{norm(r.value)}` for the operators {sorted(allowed - valid_ops)} without a range "
+                f"Balancer.{name} returns `{norm(r.value)[:120]}` for the operators {sorted(allowed - valid_ops)} without a range "
                 f"condition on the operand whose bits are lost: {why}. A value of x that satisfies the original "
                 f"constraint falls outside the bound derived from the rewritten one (or the constraint is reported "
                 f"unsatisfiable)",
-                construct=f"{name}: {norm(r.value)} for {sorted(allowed - valid_ops)} under [{'; '.join(held)}]",
+                construct=f"{name}: rebuilt comparison for {sorted(allowed - valid_ops)} under [{'; '.join(h[:60] for h in held)}]",
             )
     R.need(n >= 10, f"only {n} balance rewrites found")
 
